@@ -16,7 +16,7 @@ import re
 from . import common as C
 
 MODULE = "AcqVerif.Props.C18"
-DRIVERS = ["acq_simconc"]
+DRIVERS = ["acq_simconc", "AcqVerif.Props.SimcamLock"]
 THEOREMS = [
     "AcqVerif.C18.ids_strictly_increase",
     "AcqVerif.C18.ids_count_generated_frames",
@@ -413,8 +413,34 @@ def corpus_cases():
     return out
 
 
+def regenerate_lock_table(ctx):
+    """Generated/SimcamSync.lean: every access to the camera object's fields with the lock state, from the source as it is now
+    (extract/simskel.py); the interleaving model's step granularity is sound only under the lock discipline proved over this table"""
+    import sys
+    sys.path.insert(0, os.path.join(C.VERIF, "extract"))
+    import simskel as X
+    path = os.path.join(C.LEAN, "AcqVerif", "Generated", "SimcamSync.lean")
+    try:
+        w, entry = X.extract(C.REPO)
+        text = X.lean_source(w, entry)
+    except Exception as ex:   # fail closed
+        ctx.corr_broken.append({"what": "lock-discipline extractor could not analyse simulated.camera.c", "error": str(ex)[:500]})
+        return False
+    old = open(path).read() if os.path.exists(path) else None
+    if old != text:
+        with C.LakeLock():
+            with open(path, "w") as f:
+                f.write(text)
+    ctx.cov["simcam_lock_table"] = {"accesses": text.count("\n  (\""), "entry_functions": entry, "changed_this_run": old != text}
+    return True
+
+
 def run(ctx):
-    ctx.prove(MODULE, THEOREMS, extra_targets=DRIVERS)
+    regenerate_lock_table(ctx)
+    from . import rtcheck
+    rtcheck.prove_all(ctx, [(MODULE, THEOREMS, DRIVERS),
+                            ("AcqVerif.Props.SimcamLock", ["AcqVerif.SimcamLock.unlocked_accesses_are_the_known_ones",
+                                                           "AcqVerif.SimcamLock.frame_state_is_guarded", "AcqVerif.SimcamLock.waits_hold_the_lock"], [])])
     from . import platconf
     platconf.run(ctx)        # the real platform.c keeps the contract detsched stands for (join waits for every joiner, notify_all wakes all, ...)
     exe, drv = build(ctx)
